@@ -271,6 +271,50 @@ theorem C10_zero_weight_contributes_nothing (s : SimState) (it : Item) (cur : Na
   rw [C10_weighted_sum, C10_weighted_sum]
   simp [Rat.zero_mul, Rat.zero_add]
 
+/-! ### The accumulation over an arbitrary carrier (why the theorems speak of exact arithmetic, and what floats keep) -/
+
+/-- `total = 0.0; for (w, c): total += w * c` over an arbitrary carrier with arbitrary `add` / `mul` -/
+def weightedFold {V : Type} (add mul : V → V → V) (zero : V) (wcs : List (V × V)) : V :=
+  wcs.foldl (fun acc wc => add acc (mul wc.1 wc.2)) zero
+
+theorem updateComps_fst_eq_foldl (s : SimState) (it : Item) (cur : Name → Val) (comps : List (Comp × Val)) (acc : Val) :
+    (updateComps s it cur acc comps).1 =
+      (comps.map (fun cw => (cw.2, (calcComp s it cur cw.1).1))).foldl (fun a wc => a + wc.1 * wc.2) acc := by
+  induction comps generalizing acc with
+  | nil => rfl
+  | cons cw rest ih =>
+    obtain ⟨c, w⟩ := cw
+    simp only [updateComps, List.map_cons, List.foldl_cons]
+    exact ih _
+
+/-- The model's accumulation is literally the left fold the code performs, in the code's order of operations
+(`Gen.Reward.updateIsWeightedLeftFold` ties the shape of `RewardFunction.update` to it). -/
+theorem C10_update_is_left_fold (s : SimState) (it : Item) (cur : Name → Val) (comps : List (Comp × Val)) :
+    (updateComps s it cur 0 comps).1 =
+      weightedFold (· + ·) (· * ·) (0 : Val) (comps.map (fun cw => (cw.2, (calcComp s it cur cw.1).1))) :=
+  updateComps_fst_eq_foldl s it cur comps 0
+
+/-- **Weighted sum over any lawful arithmetic.** In every carrier whose addition is associative with a two-sided zero
+(any ordered field in particular; no law of `mul` is needed) that left fold equals the sum `w₁·c₁ + (w₂·c₂ + (… + 0))`.
+IEEE doubles are not such a carrier (addition is not associative): for them the rig checks that the fold the code computes
+lies within the forward rounding bound of this sum. -/
+theorem C10_weighted_sum_any_arithmetic {V : Type} (add mul : V → V → V) (zero : V)
+    (add_assoc : ∀ a b c, add (add a b) c = add a (add b c)) (zero_add : ∀ a, add zero a = a)
+    (add_zero : ∀ a, add a zero = a) (wcs : List (V × V)) :
+    weightedFold add mul zero wcs = (wcs.map (fun wc => mul wc.1 wc.2)).foldr add zero := by
+  unfold weightedFold
+  have h : ∀ (l : List (V × V)) (acc : V),
+      l.foldl (fun acc wc => add acc (mul wc.1 wc.2)) acc = add acc ((l.map (fun wc => mul wc.1 wc.2)).foldr add zero) := by
+    intro l
+    induction l with
+    | nil => intro acc; simp [add_zero]
+    | cons x r ih => intro acc; simp only [List.foldl_cons, List.map_cons, List.foldr_cons]; rw [ih, add_assoc]
+  rw [h, zero_add]
+
+/-- the associativity hypothesis is needed: with a non-associative `add` (truncated subtraction) the two differ -/
+example : weightedFold (fun a b : Nat => a - b) (· * ·) 5 [(1, 2), (1, 3)]
+    ≠ ([(1, 2), (1, 3)].map (fun wc : Nat × Nat => wc.1 * wc.2)).foldr (fun a b => a - b) 5 := by decide
+
 /-! ## 4. Episode total = sum of step rewards -/
 
 /-- From a loaded game, after any run of steps: every agent has one history item per step, each carrying that step's
@@ -490,5 +534,20 @@ example :
         { services := [(("srv", "web-server"), [404, 404])], browsers := [("pc2", [])] }).toOption)).map
       (fun g => g.agents.map (fun p => (p.1, p.2.current)))
       = some [("blue", -41/32), ("g2", -1/16), ("g1", -1/4)] := by decide +kernel
+
+/-- an agent with three shared-reward components, the same agent named twice, declared before everything it shares
+from: every share is an arc, the order puts all of them first, and a cycle through the FIRST-listed share is rejected -/
+def exMulti : List AgentCfg :=
+  [ { ref := "hub", comps := [(.shared "x", 1/2), (.actionPenalty (-1) (1/4), 1), (.shared "y", -1), (.shared "x", 1/4), (.shared "z", 0)] },
+    { ref := "z", comps := [(.actionPenalty (-1/2) (1/8), defaultWeight)] },
+    { ref := "y", comps := [(.shared "z", 1)] },
+    { ref := "x", comps := [(.shared "y", 3/4)] } ]
+example : (fromConfig (sigmaOf []) exMulti).toOption.map (·.order) = some ["z", "y", "x", "hub"] := by decide
+example : (fromConfig (sigmaOf [(["x", "y", "x", "z"], ["z", "x", "y"])]) exMulti).toOption.map (·.order)
+    = some ["z", "y", "x", "hub"] := by decide
+/-- an observation that lost a name is not followed (the order still has `x` before `hub`) -/
+example : sigmaOf [(["x", "y", "x", "z"], ["z"])] ["x", "y", "x", "z"] = ["x", "y", "z"] := by decide
+example : (match fromConfig (sigmaOf []) (exMulti ++ [{ ref := "x", comps := [(.shared "hub", 1)] }]) with
+    | .error .cycle => true | _ => false) = true := by decide
 
 end Primaite.Reward
